@@ -496,6 +496,8 @@ theorem ifBranches_succ (all : List Tok) (conds : List Expr) (bodies : List (Lis
   simp only []
   have hb' : ∀ b ∈ bodies ++ [body], NodesOK L b := snoc_all hb hr.1
   split
+  · exact pok_error _
+  split
   · refine pok_bind (parseExpression_args htok n tagArgs hr.2.1) fun r2 hr2 => ?_
     obtain ⟨c, ta⟩ := r2
     simp only []
